@@ -101,7 +101,7 @@ class SymH:
                 return
         self.goals.append(dict(name=name, kind='eq', a=fa, b=fb, validate=validate))
 
-    def proj_eq(self, name, a, b, validate=False):
+    def proj_eq(self, name, a, b, validate=False, nonzero=True):
         """rows of a and b (last axis) are equal up to a non-zero scalar factor each"""
         a = np.asarray(a, dtype=object)
         b = np.asarray(b, dtype=object)
@@ -119,7 +119,8 @@ class SymH:
             nz.append(core.any_of([SymBool.lift(_ne0(x)) for x in ra]))
             nz.append(core.any_of([SymBool.lift(_ne0(x)) for x in rb]))
         self.goals.append(dict(name=name, kind='eq', a=la, b=lb, validate=False, proj=(a, b)))
-        self.goals.append(dict(name=name + ":nonzero", kind='holds', cond=core.all_of(nz)))
+        if nonzero:
+            self.goals.append(dict(name=name + ":nonzero", kind='holds', cond=core.all_of(nz)))
 
     def holds(self, name, cond):
         conds = [SymBool.lift(c) if not isinstance(c, SymBool) else c for c in _flat(cond)[0]]
@@ -246,7 +247,7 @@ class ConcH:
             ok = False
         self.goals.append(dict(name=name, kind='eq', ok=ok, a=a_.ravel().tolist(), b=b_.ravel().tolist()))
 
-    def proj_eq(self, name, a, b, validate=False):
+    def proj_eq(self, name, a, b, validate=False, nonzero=True):
         a = np.asarray(a).astype(complex)
         b = np.asarray(b).astype(complex)
         ok = a.shape == b.shape
@@ -264,7 +265,8 @@ class ConcH:
                     ok = False
                     break
         self.goals.append(dict(name=name, kind='eq', ok=ok, a=a.ravel().tolist(), b=b.ravel().tolist()))
-        self.goals.append(dict(name=name + ":nonzero", kind='holds', ok=ok or bool(a.shape == b.shape and np.all(np.linalg.norm(b, axis=-1) > 0) and np.all(np.linalg.norm(a, axis=-1) > 0))))
+        if nonzero:
+            self.goals.append(dict(name=name + ":nonzero", kind='holds', ok=ok or bool(a.shape == b.shape and np.all(np.linalg.norm(b, axis=-1) > 0) and np.all(np.linalg.norm(a, axis=-1) > 0))))
 
     def holds(self, name, cond):
         self.goals.append(dict(name=name, kind='holds', ok=bool(np.all(cond))))
@@ -379,6 +381,24 @@ def find_witness(cx, extra=None, timeout_ms=5000, tries=6):
     """a float-representable assignment satisfying the path condition with margin (or None).  Preference order:
     generic and well-conditioned (all inputs non-zero and distinct, every 'expr != 0' condition kept away from 0),
     then well-conditioned only, then anything."""
+    # cheap first: rational grid points, checked exactly (40-digit evaluation of the whole path condition with margin);
+    # a hit is a genuine reachability witness.  The solver is only needed for paths with equality constraints.
+    if extra is None and cx.var_alias:
+        import random
+        rnd = random.Random(hash(tuple(cx.trace)) & 0xffffffff)
+        names = list(cx.var_alias)
+        grids = [[Fraction(k, 8) for k in range(-7, 8) if k], [Fraction(k, 4) for k in range(-11, 12) if k and abs(k) != 4],
+                 [Fraction(k, 16) for k in range(-15, 16) if k]]
+        has_eq = any(b.op == 'cmp' and b.args[1] == '==' for b in cx.pc)
+        for attempt in range(0 if has_eq else 60):
+            g = grids[attempt % 3]
+            vals = rnd.sample(g, min(len(g), len(names))) if len(names) <= len(g) else [rnd.choice(g) for _ in names]
+            env = dict(zip(names, vals))
+            try:
+                if pc_holds(cx, env, margin=1e-4):
+                    return env, 'sat'
+            except Exception:
+                break
     s = cx.solver(timeout_ms)
     if extra is not None:
         s.add(extra)
@@ -389,7 +409,7 @@ def find_witness(cx, extra=None, timeout_ms=5000, tries=6):
 
     def cond(m):
         return [z3.Or(nz > z3.RealVal(m), nz < -z3.RealVal(m)) for nz in nzs]
-    attempts = [generic + cond("1/4"), cond("1/4"), generic + cond("1/64"), cond("1/1024"), generic, []]
+    attempts = [cond("1/4"), generic + cond("1/4"), cond("1/1024"), []]
     any_sat = False
     last_status = 'unknown'
     for extra_cs in attempts:
